@@ -37,10 +37,12 @@ type rsStep struct {
 type rsWorld struct {
 	tr    *Transport
 	dir   string
-	names map[uint64]string // accessory id -> the name the application set
-	nameI map[uint64]uint64 // accessory id -> instance id of its Name characteristic
-	strs  map[string]string // "aid.iid" -> value of every string characteristic of the accessory information services
-	order []string          // their ids in a fixed order
+	names map[uint64]string           // accessory id -> the name the application set
+	nameI map[uint64]uint64           // accessory id -> instance id of its Name characteristic
+	strs  map[string]string           // "aid.iid" -> value of every string characteristic of the accessory information services
+	order []string                    // their ids in a fixed order
+	lamp  *accessory.ColoredLightbulb // every controller subscribes to its On characteristic
+	lampA uint64
 	ids   map[string]ref.Identity
 	mu    sync.Mutex
 }
@@ -55,12 +57,16 @@ func newRSWorld(seed int64, k int, n int) (*rsWorld, error) {
 		name := fmt.Sprintf("Lamp %03d of %d \"q\" <&> é\U0001F4A1 %08x", i, k, rng.Uint32())
 		lb := accessory.NewColoredLightbulb(accessory.Info{Name: name, SerialNumber: fmt.Sprintf("SN-%06d-%d", i, k), Manufacturer: fmt.Sprintf("maker-%d-%d-", i, k) + strings.Repeat("m", rsFill), Model: fmt.Sprintf("model-%d-%d-", i, k) + strings.Repeat("M", rsFill)})
 		accs = append(accs, lb.Accessory)
+		if i == 0 {
+			w.lamp = lb
+		}
 	}
 	tr, err := startTransport(w.dir, "00102003", false, accs[0], accs[1:]...)
 	if err != nil {
 		return nil, err
 	}
 	w.tr = tr
+	w.lampA = w.lamp.Accessory.ID
 	for _, a := range accs {
 		w.names[a.ID] = a.Info.Name.GetValue()
 		w.nameI[a.ID] = a.Info.Name.ID
@@ -191,20 +197,41 @@ func (w *rsWorld) runWord(b Beh, seed int64) ([]J, error) {
 			return nil, err
 		}
 		c.Timeout = 20 * time.Second
+		// every controller wants to hear about the first lamp
+		sub, _ := json.Marshal(J{"characteristics": []J{{"aid": w.lampA, "iid": w.lamp.Lightbulb.On.ID, "ev": true}}})
+		if m, err := c.Do("PUT", "/characteristics", ref.CTJSON, sub); err != nil || m.Status >= 300 {
+			c.Close()
+			return nil, fmt.Errorf("subscription refused")
+		}
 		conns[name] = c
 		return c, nil
 	}
+	var apps sync.WaitGroup
+	defer apps.Wait()
 	lines := []J{{"ev": "reset", "case": b.ID}}
 	for i, raw := range b.Steps {
 		var s rsStep
 		if err := json.Unmarshal(raw, &s); err != nil {
 			return nil, err
 		}
+		o := J{"ev": "step", "case": b.ID, "i": i, "a": s.A, "c": s.C, "k": s.K, "ok": true, "n": 0, "why": ""}
+		if s.A == "Event" {
+			// the application changes the value all controllers are subscribed to; it does not wait for slow receivers
+			apps.Add(1)
+			go func() {
+				defer apps.Done()
+				w.mu.Lock()
+				defer w.mu.Unlock()
+				w.lamp.Lightbulb.On.SetValue(!w.lamp.Lightbulb.On.GetValue())
+			}()
+			time.Sleep(2 * time.Millisecond)
+			lines = append(lines, o)
+			continue
+		}
 		c, err := conn(s.C)
 		if err != nil {
 			return nil, err
 		}
-		o := J{"ev": "step", "case": b.ID, "i": i, "a": s.A, "c": s.C, "k": s.K, "ok": true, "n": 0, "why": ""}
 		switch s.A {
 		case "Send":
 			path := "/accessories"
